@@ -3,6 +3,7 @@ C07 — Composite pools conserve demand and aggregate their children faithfully.
 All theorems are for arbitrary child lists (any length) over exact rationals.
 -/
 import CobaldVerif.Lemmas.Composite
+import CobaldVerif.Generated.SrcComposite
 
 namespace Cobald.Props.C07
 open Cobald Cobald.Composite
@@ -149,6 +150,48 @@ theorem fitness_fallbacks (k : Kind) (f : Attr) (st : St) :
   · rintro a rfl hW
     simp only [fitness, hW, if_true]
     constructor <;> intro h <;> simp [h]
+
+/-! ### the model is what the source says (regenerated on every run)
+
+`Generated/SrcComposite.lean` is re-emitted from the text of `composite/uniform.py` and
+`composite/weighted.py` by `harness/vh/translate.py` (the demand setter's loop, the `supply`,
+`utilisation`, `allocation` getters with their `ZeroDivisionError` fallbacks, `_total_weight`,
+`_undefined_fitness`, the initial demand of `__init__`).  These theorems equate the regenerated
+definitions with the hand-written model the theorems above are about. -/
+
+theorem gen_shares_uniform (cs : List Child) (D : Rat) :
+    Gen.Composite.uniformShares cs D = shares .uniform cs D := rfl
+
+theorem gen_shares_weighted (a : Attr) (cs : List Child) (D : Rat) :
+    Gen.Composite.weightedShares a cs D = shares (.weighted a) cs D := by
+  unfold Gen.Composite.weightedShares shares totalWeight
+  by_cases h : sumOf (fun c => c.get a) cs = 0 <;> simp [h]
+
+theorem gen_supply (st : St) :
+    Gen.Composite.uniformSupply st.children = supply st ∧ Gen.Composite.weightedSupply st.children = supply st :=
+  ⟨rfl, rfl⟩
+
+theorem gen_init (cs : List Child) :
+    Gen.Composite.uniformInitDemand cs = (init cs).demand ∧ Gen.Composite.weightedInitDemand cs = (init cs).demand :=
+  ⟨rfl, rfl⟩
+
+theorem gen_fitness_uniform (st : St) :
+    Gen.Composite.uniformUtilisation st.children = fitness .uniform .util st ∧
+    Gen.Composite.uniformAllocation st.children = fitness .uniform .alloc st := by
+  unfold Gen.Composite.uniformUtilisation Gen.Composite.uniformAllocation fitness
+  by_cases h : st.children.length = 0 <;> simp [h, Child.get]
+
+theorem gen_fitness_weighted (a : Attr) (st : St) :
+    Gen.Composite.weightedUtilisation a st.children = fitness (.weighted a) .util st ∧
+    Gen.Composite.weightedAllocation a st.children = fitness (.weighted a) .alloc st := by
+  unfold Gen.Composite.weightedUtilisation Gen.Composite.weightedAllocation fitness totalWeight supply
+  by_cases h : sumOf (fun c => c.get a) st.children = 0
+  · simp [h, Child.get]
+  · simp [h, Child.get]
+
+/-- both classes return the stored value from the `demand` getter -/
+theorem gen_reads_stored :
+    Gen.Composite.uniformReadsStored = true ∧ Gen.Composite.weightedReadsStored = true := ⟨rfl, rfl⟩
 
 /-! ### non-vacuity -/
 
